@@ -28,6 +28,22 @@ def make_tokeniser(c, defaults=False):
                      flag_fuse_track=c["fuseTrk"], flag_fuse_value=c["fuseVal"], flag_fuse_velocity=c["fuseVel"])
 
 
+_TOKS = {}
+
+
+def shared_tokeniser(c, idx, defaults=False):
+    """One tokeniser object serves many pieces: in every third case the object built for this configuration earlier in
+    the same worker process is used again (a tokeniser carries no state of its own between calls)."""
+    if idx % 3 != 2:
+        return make_tokeniser(c, defaults)
+    key = (json.dumps(c, sort_keys=True), defaults)
+    if key not in _TOKS:
+        if len(_TOKS) > 200:
+            _TOKS.clear()
+        _TOKS[key] = make_tokeniser(c, defaults)
+    return _TOKS[key]
+
+
 def observed_cfg(c, tok):
     """The configuration as the real object reports it (bins as the object holds them, made integral for TLC)."""
     o = dict(c)
@@ -115,7 +131,7 @@ def roundtrip(case):
             "codecIdentity": False, "out": EMPTY_OUT, "parsed": [], "parsedOk": False, "tokens": [],
             "case": {"cfg": c, "piece": piece}}
     try:
-        tok = make_tokeniser(c, defaults=(idx % 2 == 1))
+        tok = shared_tokeniser(c, idx, defaults=(idx % 2 == 1))
         line["cfg"] = observed_cfg(c, tok)
         perturb_returned_defaults()      # a caller edits lists returned by the default helpers; this tokeniser must not care
     except Exception as e:
@@ -399,7 +415,7 @@ def closure(case):
     line = {"kind": "closure", "cfg": c, "tag": tag, "tokRaised": "", "detokRaised": "", "allKeys": False, "codecIdentity": False,
             "tokens": [], "case": {"cfg": c, "piece": piece, "tag": tag}}
     try:
-        tok = make_tokeniser(c, defaults=(idx % 2 == 1))
+        tok = shared_tokeniser(c, idx, defaults=(idx % 2 == 1))
         perturb_returned_defaults()
         seqs = piece_sequences(piece)
     except Exception as e:
@@ -553,7 +569,7 @@ def chunked(case):
     bar_tok = idx % 4 != 3
     line["barTokens"] = bar_tok
     try:
-        tok = make_tokeniser(c)
+        tok = shared_tokeniser(c, idx)
         seqs = piece_sequences(piece)
         if route == "split":
             # chunks of whole bars obtained by plain splitting at the chosen bar lines: only the first chunk (and chunks
@@ -757,7 +773,7 @@ def info_case(case):
             "placed": [], "fromTokenise": piece is not None, "barLines": [], "imputedSame": False, "tokens": [],
             "case": {"cfg": c, "stream": stream, "piece": piece}}
     try:
-        tok = make_tokeniser(c)
+        tok = shared_tokeniser(c, idx)
         if piece is not None:
             tokens = tok.tokenise(piece_sequences(piece))
         else:
